@@ -110,38 +110,106 @@ func (c *Ctx) SEC(rule string) []report.Obligation {
 		out = append(out, anchorViolation(rule+"-4", "types.SecretConfigXValue"))
 		return out
 	}
-	for _, spec := range []struct{ fn, key string }{{"loader.resolveSecretsEnvironment", xvalue}, {"loader.resolveConfigsEnvironment", "content"}} {
-		fn := c.P.Func(spec.fn)
-		if fn == nil {
-			out = append(out, anchorViolation(rule+"-5", spec.fn))
+	// SEC-5: wherever package loader stores a value it looked up in an environment (types.Mapping) parameter into a
+	// raw resource, the key is the carrier key (secrets) or "content" (configs): the renderers blank exactly those.
+	// The key may arrive through a parameter of a shared helper; then every caller passes one of the two constants,
+	// paired with its section.
+	allowedFor := map[string]string{"secrets": xvalue, "configs": "content"}
+	var keyConsts func(fn *ssa.Function, v ssa.Value, depth int) (keys []string, sections [][]string, ok bool)
+	keyConsts = func(fn *ssa.Function, v ssa.Value, depth int) ([]string, [][]string, bool) {
+		if k, isC := prog.ConstString(v); isC {
+			return []string{k}, [][]string{nil}, true
+		}
+		pa, isP := v.(*ssa.Parameter)
+		if !isP || depth == 0 {
+			return nil, nil, false
+		}
+		idx := -1
+		for i, p := range fn.Params {
+			if p == pa {
+				idx = i
+			}
+		}
+		var keys []string
+		var secs [][]string
+		for _, g := range c.P.Funcs {
+			for _, cs := range callSites(g, func(com *ssa.CallCommon) bool { return com.StaticCallee() == fn }) {
+				if idx < 0 || idx >= len(cs.Common().Args) {
+					return nil, nil, false
+				}
+				ks, _, ok := keyConsts(g, cs.Common().Args[idx], depth-1)
+				if !ok {
+					return nil, nil, false
+				}
+				var others []string
+				for j, a := range cs.Common().Args {
+					if j != idx {
+						if sname, isC := prog.ConstString(a); isC {
+							others = append(others, sname)
+						}
+					}
+				}
+				for _, k := range ks {
+					keys = append(keys, k)
+					secs = append(secs, others)
+				}
+			}
+		}
+		return keys, secs, len(keys) > 0
+	}
+	n := 0
+	for _, fn := range c.P.Funcs {
+		if !strings.HasPrefix(c.P.FuncID(fn), "loader.") {
 			continue
 		}
-		envParam := fn.Params[1]
-		// values looked up in the environment parameter
-		n := 0
-		for _, b := range fn.Blocks {
-			for _, in := range b.Instrs {
-				lk, isL := in.(*ssa.Lookup)
-				if !isL || lk.X != ssa.Value(envParam) {
-					continue
-				}
-				for _, use := range valueUses(lk, 4) {
-					switch u := use.(type) {
-					case *ssa.MapUpdate:
-						k, _ := prog.ConstString(u.Key)
-						n++
-						out = append(out, verdict(k == spec.key, rule+"-5", spec.fn+" :: environment value stored under "+fmt.Sprintf("%q", k), c.P.InstrPos(u),
-							"the resolved value is stored under the expected key only", "an environment value is stored under key "+fmt.Sprintf("%q", k)+", which the renderers do not blank"))
-					case *ssa.Return, *ssa.Store, *ssa.Send:
-						n++
-						out = append(out, bad(rule+"-5", spec.fn+" :: environment value escapes", c.P.InstrPos(u), "an environment value flows somewhere else than the carrier key"))
+		for _, envParam := range fn.Params {
+			nt, isN := envParam.Type().(*types.Named)
+			if !isN || nt.Obj().Name() != "Mapping" {
+				continue
+			}
+			for _, b := range fn.Blocks {
+				for _, in := range b.Instrs {
+					lk, isL := in.(*ssa.Lookup)
+					if !isL || lk.X != ssa.Value(envParam) {
+						continue
+					}
+					for _, use := range valueUses(lk, 4) {
+						switch u := use.(type) {
+						case *ssa.MapUpdate:
+							n++
+							keys, secs, okk := keyConsts(fn, u.Key, 3)
+							good := okk
+							desc := c.P.KeyTerm(u.Key, 2)
+							if okk {
+								desc = fmt.Sprintf("%q", keys)
+								for i, k := range keys {
+									if k != xvalue && k != "content" {
+										good = false
+									}
+									for _, sname := range secs[i] {
+										if want, has := allowedFor[sname]; has && want != k {
+											good = false
+										}
+									}
+								}
+							}
+							out = append(out, verdict(good, rule+"-5", c.P.FuncID(fn)+" :: environment value stored under "+desc, c.P.InstrPos(u),
+								"the resolved value is stored under the carrier key (secrets) / content (configs) only", "an environment value is stored under key "+desc+", which the renderers do not blank"))
+						case *ssa.Return, *ssa.Store, *ssa.Send:
+							// the services' environment is resolved into the model on purpose (it is not a secret)
+							if strings.Contains(c.P.FuncID(fn), "ervicesEnvironment") {
+								continue
+							}
+							n++
+							out = append(out, bad(rule+"-5", c.P.FuncID(fn)+" :: environment value escapes", c.P.InstrPos(u), "an environment value flows somewhere else than the carrier key"))
+						}
 					}
 				}
 			}
 		}
-		if n == 0 {
-			out = append(out, bad(rule+"-5", spec.fn+" :: environment lookup", c.P.Pos(fn.Pos()), "the function no longer stores a value looked up in its environment parameter: rule sees nothing"))
-		}
+	}
+	if n == 0 {
+		out = append(out, bad(rule+"-5", "loader :: environment lookups stored into resources", "", "no function of package loader stores a value looked up in its environment parameter: rule sees nothing"))
 	}
 	hook := c.P.Func("loader.secretConfigDecoderHook")
 	if hook == nil {
